@@ -1,6 +1,6 @@
 """C07: Annotation.crop / extrude never lose, duplicate or relabel a track."""
 from harness import enc, gen
-from harness.annutil import (URIS, enc_triples, enc_uri, mk_ann, rand_records, triples)
+from harness.annutil import (LABELS, URIS, enc_triples, enc_uri, mk_ann, rand_records, triples)
 from harness.timebase import TB, REGIMES
 from harness.tlutil import mk_sup, enc_sup
 
@@ -58,6 +58,17 @@ def generate(rng, tier):
             if tier != "thorough" and (da + db + pa + pb) % 2 and regime != "K0":
                 continue
             cases.append({"regime": regime, "recs": recs, "uri": "u1", "modality": None, "sup": ["tl", pieces]})
+    # many tracks of one name cut down to the same piece (generated names '0' ... '9', '10', '11', ...)
+    for regime in ("K0", "K4"):
+        w_ = 5 if regime == "K4" else 1
+        for nclash in ((3, 10, 11, 12, 13, 14, 21) if tier == "thorough" else (11, 13, 14)):
+            for tr in ("_", 0):
+                recs = [[[(30 - i) * w_, (40 + i) * w_], tr, LABELS[i % 4]] for i in range(nclash)]
+                rng.shuffle(recs)
+                if rng.random() < 0.5:
+                    recs.append([[30 * w_, 40 * w_], "10", "a"])
+                cases.append({"regime": regime, "recs": recs, "uri": "u1", "modality": "m",
+                              "sup": ["seg", [30 * w_, 40 * w_]] if rng.random() < 0.5 else ["tl", [[30 * w_, 40 * w_], [90 * w_, 95 * w_]]]})
     cases += gen.decimal_copies(rng, cases, (1500 if tier == "thorough" else 150))
     cases += gen.far_copies(rng, cases, ['recs', 'sup'], (400 if tier == "thorough" else 60))
     return {"cases": cases, "meta": {"exhaustive": False,
